@@ -169,9 +169,33 @@ func (g *schemaGen) clusterSchema() map[string]any {
 		}
 		return m
 	}
-	for _, kw := range subset(c, []int{0, 1, 2, 3, 4, 5}, 2, 4) {
+	reqLists := func(keys []string) map[string]any {
+		m := map[string]any{}
+		for _, k := range keys {
+			rs := subset(c, propPool, 1, 2)
+			arr := make([]any, len(rs))
+			for i, r := range rs {
+				arr[i] = r
+			}
+			m[k] = arr
+		}
+		return m
+	}
+	for _, kw := range subset(c, []int{0, 1, 2, 3, 4, 5, 6}, 2, 4) {
 		switch kw {
+		case 6:
+			// several dependentRequired entries: some satisfied, some not, all applicable
+			if g.draft7 {
+				if _, has := s["dependencies"]; !has {
+					s["dependencies"] = reqLists(subset(c, propPool, 2, 4))
+				}
+			} else {
+				s["dependentRequired"] = reqLists(subset(c, propPool, 2, 4))
+			}
 		case 0:
+			if _, has := s["dependencies"]; has {
+				continue
+			}
 			if g.draft7 {
 				s["dependencies"] = entries(subset(c, propPool, 2, 3))
 			} else {
